@@ -652,6 +652,13 @@ def rule_inv_unsafe(ctx):
         for g in table['module_groups']:
             if root.startswith(g) or root.startswith('<' + g) or root.startswith('<&mut ' + g):
                 return g
+        # an impl of a trait of the pointer module for a foreign type (`impl NodePtrExt for NonNull<DeqNode<T>>`), or any item whose source
+        # file is the pointer module's: the module it is written in is what was reviewed as a whole
+        fb = prog.bodies.get(root)
+        fmod = (fb.file[4:-3].replace('/', '::') + '::') if (fb is not None and str(fb.file).startswith('src/') and str(fb.file).endswith('.rs')) else None
+        for g in table['module_groups']:
+            if g.endswith('::') and ((' as ' + g) in root or fmod == g):
+                return g
         return None
     c = Counter()
     cache_level = []
@@ -698,7 +705,7 @@ def rule_inv_unsafe(ctx):
                           'modules' % (owner, callee, st_ or '?'), where=where_, expected='only reads of a deque node through its pointer (NonNull<DeqNode>::as_ref) or guarded list operations')
     ufns = sorted(b.nid for b in prog.bodies.values() if b.unsafe_fn)
     for fn in ufns:
-        ok = fn in table['unsafe_fns'] or any(fn.startswith(g) for g in table['module_groups'])
+        ok = fn in table['unsafe_fns'] or any(fn.startswith(g) for g in table['module_groups']) or group_of(fn) is not None
         r.instance(unsafe_fn=fn, reviewed=ok)
         if not ok:
             r.violate(fn, 'unreviewed-unsafe', 'unsafe fn', 'new unsafe fn %s' % fn, where=ctx.where(fn))
@@ -842,6 +849,10 @@ def _from_admission(ctx, fn, node, _depth=0):
     adm = {a for a, _k in admits(ctx) if ctx.has_sync or _k == 'unsync'}
     if any(isinstance(x, tuple) and x and x[0] == 'call' and x[1] in adm for x in subterms(node)):
         return True
+    # a caller-owned node list that the admission scan filled through a `&mut` out-parameter
+    if any(isinstance(x, tuple) and x and x[0] == 'call' and x[1] == 'escaped' and len(x[2]) > 1 and isinstance(x[2][1], tuple) and x[2][1][0] == 'c' and x[2][1][1] in adm
+           for x in subterms(node)):
+        return True
     params = {x[1] for x in subterms(node) if isinstance(x, tuple) and x and x[0] == 'param'}
     if not params or _depth >= 2:
         return False
@@ -979,6 +990,8 @@ def rule_deque_shape(ctx):
         b = prog.bodies[nid]
         # the list's own read-only predicates (is this node the head / the tail / under the cursor, however they are factored) are part of the path
         def _pure_pred(n_, bb, d):
+            if ' as common::deque::' in n_ and bb.kind != 'closure' and d < 3 and not bb.loops() and len(bb.blocks) <= 12:
+                return True     # link accessors of the list module written as an extension trait on the node pointer
             return bool(n_.startswith('common::deque::Deque::') and d < 3 and not bb.loops() and
                         not any(e[0] == 'write' for e in ctx.eff.transitive(n_)) and not ctx.eff.mut_params.get(n_))
         sx = ctx.symex(inline_depth=3, loop_visits=2, inline_pred=_pure_pred)
